@@ -1,0 +1,118 @@
+//go:build verif
+
+package derive
+
+// Contracts for package derive, read by the verification engine in /verif (gvc).
+// This file holds comments only; it is excluded from every build without the
+// tag "verif" and contains no executable code with it.
+//
+// Clause language: see /verif/DESIGN.md appendix E.
+
+// ---------------------------------------------------------------------------
+// external (trusted) contracts: go/types, strconv, strings, fmt
+// ---------------------------------------------------------------------------
+
+//@ extern func types.AssignableTo(V types.Type, T types.Type) (r bool)
+//@ pure
+//@ extern func types.Default(t types.Type) (r types.Type)
+//@ pure
+//@ extern func types.TypeString(typ types.Type, qf types.Qualifier) (r string)
+//@ pure
+//@ extern func (n *types.Named) Obj() (r *types.TypeName)
+//@ pure
+//@ ensures r != nil
+//@ extern func (o *types.object) Pkg() (r *types.Package)
+//@ pure
+//@ extern func (o *types.object) Name() (r string)
+//@ pure
+//@ extern func (b *types.Basic) Kind() (r types.BasicKind)
+//@ pure
+//@ extern func strconv.Itoa(i int) (r string)
+//@ pure
+//@ extern func fmt.Errorf(format string, a []interface{}) (r error)
+//@ pure
+//@ ensures r != nil
+//@ extern func fmt.Sprintf(format string, a []interface{}) (r string)
+//@ pure
+
+// ---------------------------------------------------------------------------
+// typesmap.go  (C11, C08, C01)
+// ---------------------------------------------------------------------------
+
+//@ ghost F = tm.funcToTyps
+//@ ghost R = tm.reserved
+
+// Data-structure invariant of typesMap (established by newTypesMap).
+//@ inv typesMap: self.funcToTyps != nil && self.generated != nil && self.qual != nil
+
+// String facts used by newName (trusted lemmas about concatenation):
+//@ axiom forall p string :: hasPrefix(p, p)
+//@ axiom forall a string, b string, p string :: hasPrefix(a, p) ==> hasPrefix(a + b, p)
+
+// Assumption EqIsEquivalence (C11 quantifies over pairwise non-assignable types,
+// on which assignability is an equivalence); where it does not hold the
+// consequences belong to C08 (nameOf).
+//@ axiom forall a []types.Type :: eq(a, a)
+//@ axiom forall a []types.Type, b []types.Type :: eq(a, b) ==> eq(b, a)
+//@ axiom forall a []types.Type, b []types.Type, c []types.Type :: eq(a, b) && eq(b, c) ==> eq(a, c)
+
+//@ func eq(this, that []types.Type) (r bool)
+//@ pure
+//@ ensures r <==> (len(this) == len(that) && forall j int :: 0 <= j && j < len(this) ==> types.AssignableTo(types.Default(this[j]), types.Default(that[j])))
+//@ loop 1: invariant len(this) == len(that)
+//@ loop 1: invariant forall j int :: 0 <= j && j < $i ==> types.AssignableTo(types.Default(this[j]), types.Default(that[j]))
+
+//@ func (tm *typesMap) nameOf(typs []types.Type) (name string, ok bool)
+//@ assigns nothing
+//@ ensures ok ==> name in F && eq(typs, F[name])
+//@ ensures !ok ==> forall n string :: n in F ==> !eq(typs, F[n])
+//@ loop 2: invariant forall n string :: visited(n) ==> !eq(typs, F[n])
+
+//@ func (tm *typesMap) TypeString(typ types.Type) (r string)
+//@ assigns nothing
+
+//@ func (tm *typesMap) newName(typs []types.Type) (r string)
+//@ assigns nothing
+//@ ensures !(r in F) && !(r in R)
+//@ ensures hasPrefix(r, tm.prefix)
+//@ loop 1: invariant exists <==> (funcName in F)
+//@ loop 1: invariant isreserved <==> (funcName in R)
+//@ loop 1: invariant hasPrefix(funcName, tm.prefix)
+//@ loop 1: invariant i >= 0
+
+//@ func (tm *typesMap) SetFuncName(funcName string, typs []types.Type) (r string, err error)
+//@ assigns tm.funcToTyps, tm.typss
+//@ requires [Inj] forall n1 string, n2 string :: n1 in F && n2 in F && eq(F[n1], F[n2]) ==> n1 == n2
+//@ ensures [same] (funcName in old(F) && eq(typs, old(F)[funcName])) ==> r == funcName && err == nil && F == old(F)
+//@ ensures [duplicate] (exists n string :: n in old(F) && eq(typs, old(F)[n]) && n != funcName) ==>
+//@    (tm.dedup ==> err == nil && r in old(F) && eq(typs, old(F)[r]) && F == old(F)) && (!tm.dedup ==> err != nil && F == old(F))
+//@ ensures [conflict] (!(exists n string :: n in old(F) && eq(typs, old(F)[n])) && funcName in old(F)) ==>
+//@    (tm.autoname ==> err == nil && !(r in old(F)) && !(r in R) && hasPrefix(r, tm.prefix) && F == mapUpd(old(F), r, typs))
+//@    && (!tm.autoname ==> err != nil && F == old(F))
+//@ ensures [fresh] (!(exists n string :: n in old(F) && eq(typs, old(F)[n])) && !(funcName in old(F))) ==>
+//@    r == funcName && err == nil && F == mapUpd(old(F), funcName, typs)
+//@ ensures [noflags] !tm.autoname && !tm.dedup && err == nil ==> r == funcName
+//@ ensures [Inj] err == nil ==> forall n1 string, n2 string :: n1 in F && n2 in F && eq(F[n1], F[n2]) ==> n1 == n2
+//@ ensures [worklist] F == old(F) ==> tm.typss == old(tm.typss)
+//@ ensures [worklist-grows] F != old(F) ==> tm.typss == sliceApp(old(tm.typss), typs)
+//@ ensures [bound] err == nil ==> r in F && eq(typs, F[r])
+//@ ensures [failure-keeps] err != nil ==> F == old(F)
+
+//@ func (tm *typesMap) GetFuncName(typs []types.Type) (r string)
+//@ assigns tm.funcToTyps, tm.typss
+//@ requires [Inj] forall n1 string, n2 string :: n1 in F && n2 in F && eq(F[n1], F[n2]) ==> n1 == n2
+//@ ensures [bound] r in F && eq(typs, F[r])
+//@ ensures [known] (exists n string :: n in old(F) && eq(typs, old(F)[n])) ==> F == old(F)
+//@ ensures [minted] !(exists n string :: n in old(F) && eq(typs, old(F)[n])) ==> !(r in old(F)) && !(r in R) && hasPrefix(r, tm.prefix) && F == mapUpd(old(F), r, typs)
+//@ ensures [Inj] forall n1 string, n2 string :: n1 in F && n2 in F && eq(F[n1], F[n2]) ==> n1 == n2
+//@ ensures [worklist] F == old(F) ==> tm.typss == old(tm.typss)
+//@ ensures [worklist-grows] F != old(F) ==> tm.typss == sliceApp(old(tm.typss), typs)
+
+//@ func (tm *typesMap) Generating(typs []types.Type) ()
+//@ assigns tm.generated
+//@ requires [registered] exists n string :: n in F && eq(typs, F[n])
+//@ ensures exists n string :: n in F && eq(typs, F[n]) && n in tm.generated && tm.generated[n]
+
+//@ func (tm *typesMap) isGenerated(typs []types.Type) (r bool)
+//@ assigns nothing
+//@ ensures r ==> exists n string :: n in F && eq(typs, F[n]) && tm.generated[n]
